@@ -31,7 +31,7 @@ RULES = {
     "C24": [("sa.peg", "r_C24"), ("sa.rules.c16", "r_cachekeys"), ("sa.rules.c22", "r_C23g_C24d")],
     "C25": [("sa.rules.b2", "r_C25"), ("sa.rules.c25", "r_C25efg"), ("sa.rules.c01", "r_C01i"), ("sa.rules.c25", "r_who_writes"), ("sa.rules.cmeta", "r_initclass"), ("sa.rules.cmeta", "r_namespaces"), ("sa.rules.c01e", "r_C01visitors")],
     "C26": [("sa.rules.b2", "r_C26a"), ("sa.rules.b2", "r_C26bcdef"), ("sa.rules.c26", "r_C26eval"), ("sa.rules.c26", "r_C26state")],
-    "C27": [("sa.rules.b1", "r_C27"), ("sa.rules.c25", "r_C27d"), ("sa.rules.c25", "r_who_writes"), ("sa.rules.cmeta", "r_modelparams"), ("sa.rules.c17e", "r_C17importuri")],
+    "C27": [("sa.rules.b1", "r_C27"), ("sa.rules.c25", "r_C27d"), ("sa.rules.c25", "r_who_writes"), ("sa.rules.cmeta", "r_modelparams"), ("sa.rules.c17e", "r_C17importuri"), ("sa.rules.cmeta", "r_modelfromfile")],
     "C28": [("sa.rules.b7", "r_origin"), ("sa.rules.b3", "r_C28b_C33b_C30bc"), ("sa.rules.cmisc", "r_C06bcd"), ("sa.rules.c25", "r_C28cd"), ("sa.rules.c25", "r_C28e"), ("sa.rules.c25", "r_C28f"), ("sa.rules.cmisc", "r_C13d_C34f_C09d"), ("sa.rules.cres", "r_resolver"), ("sa.rules.c17e", "r_C17importuri"), ("sa.rules.cpn", "r_processnode"), ("sa.rules.cdrv", "r_driver"), ("sa.rules.c16", "r_cachekeys"), ("sa.rules.c17e", "r_C17eval")],
     "C29": [("sa.rules.b5", "r_C29"), ("sa.rules.c29", "r_export2"), ("sa.rules.c29", "r_C29e"), ("sa.rules.c29", "r_C31d_C29f")],
     "C30": [("sa.rules.c13", "r_C13eval"), ("sa.rules.b3", "r_C28b_C33b_C30bc"), ("sa.rules.c29", "r_cli2"), ("sa.rules.c26", "r_C26eval"), ("sa.rules.c26", "r_C26state"), ("sa.rules.b1", "r_C33a")],
